@@ -118,6 +118,11 @@ claim("C40", "other",
       "Slice: the message-event reducer on arbitrary lane rows: applied exactly when the lane is not terminal and the event id is not a replay; applied => sequence = cursor+1; terminal events finalise the lane and nothing later changes it; replayed ids report their recorded sequence; 3-event (4 thorough) histories keep cursor = number of applied events.",
       "encoding/json on concrete payload literals is executed exactly; the Pebble glue of AppendMessageEvent and the leader stream cache / fail-closed finish clause are not claimed. " + TB)
 
+
+claim("C17", "model_checking",
+      "Every channel-migration WriteBatch command executed through the real meta DB code (on the in-memory engine) from an arbitrary valid (task, runtime meta) pre-state: a leader transfer commits / a learner is promoted only with a drain proof matching the current fence version, channel epoch, leader epoch and leader under the task's own fence; after a cutover Abort is refused; no command touches another task's fence; a mismatching guard writes nothing; accepted steps keep the metadata valid; a second active task is refused. Known finding C17-F1 (Advance/Claim move a post-cutover task back to an abortable phase).",
+      "One step from an arbitrary valid state plus cutover+abort and cutover+one command+abort histories; runtime-meta integers 0..64, three replica/ISR shapes (one in quick); pkg/db/internal/engine and commit replaced by in-memory / synchronous shims validated by the repository's own suites; encoding/json (task row) as identity codec; row checksum as uninterpreted CRC; two commands in one batch not explored. " + TB)
+
 def main():
     props = [json.loads(l) for l in open(os.path.join(ROOT, 'properties.jsonl'))]
     checks, na = [], []
